@@ -55,8 +55,11 @@ QUERIES = [
     ("is-locked", lambda p: str(p.is_locked)),
     ("get-group-ids start-group-0 [1,'a'] {'k':\"v\"}", lambda p: _call(p.get_group_ids, "start-group-0", "[1,'a']", "{'k':\"v\"}")),
     ("func-name", lambda p: str(p.func_name)),        # 150 kB; raw clients only (the bundled client reads a reply with ONE read of 100 KiB)
+    # on a locked pool: rejected with PoolIsLocked, whose str() is EMPTY - the reply is an empty line (used after 'lock' only)
+    ("start 1", lambda p: _call(p.start, 1) if p.is_locked else None),
 ]
 RAW_ONLY = {7}
+DIRECTED_ONLY = {8}
 
 
 def pobs(pool):
@@ -144,7 +147,8 @@ async def run_script(job):
                     server = UnixControlServer(pool, path)
                 else:
                     port = free_port()
-                    server = TCPControlServer(pool, "127.0.0.1", port)
+                    # (the port may be given as int or str)
+                    server = TCPControlServer(pool, "127.0.0.1", str(port) if len(job["script"]) % 2 else port)
                 t0 = time.time()
                 try:
                     task = await asyncio.wait_for(server.serve_forever(), BOUND)
@@ -236,7 +240,7 @@ async def run_script(job):
                 line, exp = LINES.get(c["cls"], "num-running"), None
                 nq[0] += 1
                 if c["cls"] == "query":
-                    v = c.get("v", (nq[0] + c["s"]) % len(QUERIES))
+                    v = c.get("v", (nq[0] + c["s"]) % (len(QUERIES) - len(DIRECTED_ONLY)))
                     if v in RAW_ONLY and cl is not None and cl.cli is not None:
                         v = 0
                     line, expf = QUERIES[v]
@@ -252,7 +256,7 @@ async def run_script(job):
                         await cl.cli.stdin.drain()
                         out = await read_until_prompt(cl.cli.stdout)
                         body = (out[:-2] if out.endswith("> ") else out).strip("\n")
-                        ev("reply", s=c["s"], cls=c["cls"], got=out.endswith("> ") and len(out) > 3, text=out[:120], before=before,
+                        ev("reply", s=c["s"], cls=c["cls"], got=out.endswith("> "), text=out[:120], before=before,
                            same=exp is None or body == exp, line=line[:60])
                     else:
                         cl.w.write(line.encode() + b"\n")
